@@ -30,6 +30,7 @@ PROPS["C15"] = {
                 "TestC15Uniqueness": T(240, 8000, shards={"quick": 4, "thorough": 16}),
                 "TestC15WireBuffer": T(400, 12000, shards={"quick": 4, "thorough": 16}),
                 "TestC15RFCInputs": LIST(),
+                "TestC15NilEntropy": LIST(),
                 "TestC15EncodingList": LIST(),
                 "TestC15TorsionList": LIST(),
                 # thorough only: Go native fuzzing (mutation from honest / adversarial / hostile seeds, reference inside the
